@@ -60,9 +60,14 @@ def tnum(mv):
     return int(str(mv)[1:])
 
 
-def x_scripts(tier):
-    cfg = "MC_ResourceImpl_xq.cfg" if tier == "quick" else "MC_ResourceImpl_xt.cfg"
-    dot, st = common.dump_graph(SPEC, "MC_ResourceImpl.tla", cfg, "ResourceImpl-" + cfg)
+def x_configs(tier):
+    # quick: 3 threads x 2 pairs; thorough: the same with spurious wake-ups, and 3 threads x 3 pairs
+    return ["MC_ResourceImpl_xq.cfg"] if tier == "quick" else ["MC_ResourceImpl_xt.cfg", "MC_ResourceImpl_x33.cfg"]
+
+
+def x_scripts(tier, cfg=None):
+    cfg = cfg or x_configs(tier)[0]
+    dot, st = common.dump_graph(SPEC, "MC_ResourceImpl.tla", cfg, "ResourceImpl-" + cfg, heap="8g")
     g = common.load_graph(dot)
     paths, covered = pathcover.cover(g)
     n = len(next(iter(g.states.values()))["pc"])
@@ -70,7 +75,7 @@ def x_scripts(tier):
     lines = []
     meta = {}
     for pi, path in enumerate(paths):
-        xid = "x%d" % pi
+        xid = "x%s-%d" % (cfg.split("_")[-1].split(".")[0], pi)
         lines.append("X %s n=%d mode=script" % (xid, n))
         for ei in path:
             _, _, name, args = g.edges[ei]
@@ -198,20 +203,29 @@ def check(pid, tier, seed):
     verdict = common.Verdict(pid)
     exe, projecting = harness()
     mcs = model_checks(tier, want_live=(pid == "C02"))
-    g, paths, meta, xscript, dump_stats, n, maxops, ncovered = x_scripts(tier)
-    log("[%s] graph %d states / %d edges, %d covering paths" % (pid, len(g.states), len(g.edges), len(paths)))
-    xres = common.run_harness(exe, xscript)
-    drift = []
-    conform = 0
-    for xid, path in meta.items():
-        recs = xres.get(xid, [])
-        d = compare_projection(g, path, recs, n, maxops) if projecting else "projection unavailable (fields renamed)"
-        if d:
-            drift.append((xid, d))
-        else:
-            conform += 1
+    xres, meta, gof, drift = {}, {}, {}, []
+    conform = tot_states = tot_edges = ncovered = npaths = 0
+    dump_stats = []
+    for xcfg in x_configs(tier):
+        g, paths, meta1, xscript, dst, n, maxops, ncov = x_scripts(tier, xcfg)
+        log("[%s] graph %s: %d states / %d edges, %d covering paths" % (pid, xcfg, len(g.states), len(g.edges), len(paths)))
+        dump_stats.append(dst)
+        tot_states += len(g.states)
+        tot_edges += len(g.edges)
+        ncovered += ncov
+        npaths += len(paths)
+        res1 = common.run_harness(exe, xscript)
+        xres.update(res1)
+        for xid, path in meta1.items():
+            meta[xid] = path
+            gof[xid] = g
+            d = compare_projection(g, path, res1.get(xid, []), n, maxops) if projecting else "projection unavailable (fields renamed)"
+            if d:
+                drift.append((xid, d))
+            else:
+                conform += 1
     if drift:
-        log("DRIFT property=%s %d of %d replayed paths deviate from ResourceImpl; first: %s" % (pid, len(drift), len(paths), drift[0][1]))
+        log("DRIFT property=%s %d of %d replayed paths deviate from ResourceImpl; first: %s" % (pid, len(drift), npaths, drift[0][1]))
 
     ycount = {"quick": 1500, "thorough": 30000}[tier]
     yruns = {}
@@ -227,7 +241,7 @@ def check(pid, tier, seed):
     src = {}
     for xid, recs in xres.items():
         execs[xid] = p_events(recs)
-        src[xid] = {"kind": "tlc-path", "steps": [list(map(str, g.edges[ei][2:])) for ei in meta[xid]]}
+        src[xid] = {"kind": "tlc-path", "steps": [list(map(str, gof[xid].edges[ei][2:])) for ei in meta[xid]]}
     for xid, recs in yruns.items():
         execs[xid] = p_events(recs)
         src[xid] = {"kind": "random", "cfg": ycfgs[xid]}
@@ -289,15 +303,15 @@ def check(pid, tier, seed):
     for x in list(meta)[:1] + list(yruns)[:2]:
         samples.append({"source": src[x], "events": execs[x][:40]})
     cov = {
-        "states": len(g.states), "transitions": len(g.edges),
+        "states": tot_states, "transitions": tot_edges,
         "traces_validated_against_impl": len(execs),
         "samples": samples,
-        "exhaustive": bool(projecting and not drift and ncovered == len(g.edges)),
+        "exhaustive": bool(projecting and not drift and ncovered == tot_edges),
         "evaluations": len(execs), "distinct_nontrivial": distinct,
         "rule": "an execution = one controlled run of the real Resource; X: path cover of every edge of TLC's graph of ResourceImpl "
                 "(%d threads x %d pairs), Y: random programs (2-8 threads, <=4 pairs, guards/raw) under seeded random/PCT schedules; "
                 "distinct = distinct observable event sequences; non-trivial = all of them (each contains at least one lock/unlock pair)" % (n, maxops),
-        "edge_cover": {"edges": len(g.edges), "edges_replayed": ncovered, "paths": len(paths), "paths_conforming": conform,
+        "edge_cover": {"edges": tot_edges, "edges_replayed": ncovered, "paths": npaths, "paths_conforming": conform,
                        "drift": [d for _, d in drift[:5]], "projection": projecting},
         "executions_with_parking": parked,
         "model_checks": mcs, "graph_dump": dump_stats, "trace_validation": tstats,
